@@ -119,7 +119,7 @@ def handle (line : String) : String :=
     | _, _ => "bad-op"
   | "hyp" :: rest =>
     match runP pE rest with
-    | some e => "ok " ++ b01 e.ok ++ " " ++ b01 e.isSynthetic
+    | some e => "ok " ++ b01 (e.ok pathOK) ++ " " ++ b01 e.isSynthetic
     | none => "bad-op"
   | "sym" :: cur :: rest =>
     let p : P (LinkTable × Entity) := do
